@@ -2693,17 +2693,29 @@ public:
     uint64_t e_sz = check_and_get_elem_size(elem_size);
     interval_t lb_i = to_interval(lb_idx);
     auto lb = lb_i.singleton();
-    if (!lb) {
-      CRAB_WARN("array adaptive store range ignored because ", "lower bound",
-                lb_idx, " is not constant");
-      return;
-    }
-
     interval_t ub_i = to_interval(ub_idx);
     auto ub = ub_i.singleton();
-    if (!ub) {
-      CRAB_WARN("array adaptive store range ignored because ", "upper bound ",
-                ub_idx, " is not constant");
+    if (!lb || !ub) {
+      // We cannot enumerate the written cells. The write cannot be
+      // just ignored: any cell between the bounds may have been
+      // overwritten.
+      CRAB_WARN("array adaptive store range with non-constant bounds ", lb_idx,
+                " and ", ub_idx);
+      const array_state &as = lookup_array_state(a);
+      if (as.is_smashed()) {
+        // weak update of the summarized variable
+        array_store(a, elem_size, lb_idx, val, false);
+      } else {
+        array_state next_as(as);
+        offset_map_t &offset_map = next_as.get_offset_map();
+        linear_expression_t symb_lb(lb_idx);
+        linear_expression_t symb_ub(ub_idx + number_t(e_sz - 1));
+        std::vector<cell_t> cells;
+        offset_map.get_overlap_cells_symbolic_offset(m_base_dom, symb_lb,
+                                                     symb_ub, cells);
+        kill_cells(a, cells, offset_map);
+        m_array_map.set(a, next_as);
+      }
       return;
     }
 
